@@ -241,7 +241,7 @@ func RunC13(r *core.Run) {
 	n := r.Pick(400000, 16000000)
 	r.Stage("messages", n, func(w *core.Worker, idx int64) {
 		rr := core.NewRand(r.Seed, 0xC13, 1, uint64(idx))
-		m := gen.Msg(rr, gen.MsgOpts{MinHdrs: 1, MaxHdrs: 14, MultiNA: 55, DupParams: rr.Bool(),
+		m := gen.Msg(rr, gen.MsgOpts{MinHdrs: 1, MaxHdrs: 14, MultiNA: 55, TrailSemi: true, DupParams: rr.Bool(),
 			Kinds: []int{gen.HContact, gen.HContact, gen.HContact, gen.HPAI, gen.HFrom, gen.HTo, gen.HCSeq, gen.HCallID, gen.HVia, gen.HExpires, gen.HOtherKind, gen.HRoute}})
 		in := m.Raw
 		mutate := rr.Intn(8) == 0
